@@ -15,7 +15,7 @@ use tvh::rng::Rng;
 use tvh::vdir::{Event, OpKind, VerifDirectory};
 use tvh::{guarded, Args};
 
-const HEADER: &str = "From TV Require Import Base.Prelude Storage.Crash Storage.ReaderGC Storage.ReloadStore.";
+const HEADER: &str = "From TV Require Import Base.Prelude Storage.Crash Storage.ReaderGC Storage.ReloadStore Storage.Flock.";
 const META_LOCK: &str = ".tantivy-meta.lock";
 
 struct Reload { ids: BTreeSet<u64> }
@@ -101,7 +101,8 @@ fn main() {
                     }
                     n += 1;
                     if done { break; }
-                    std::thread::sleep(Duration::from_micros(300));
+                    // (keep the trace a size Coq parses comfortably: after 40 reloads of a history slow down)
+                    std::thread::sleep(if n < 40 { Duration::from_micros(300) } else { Duration::from_millis(4) });
                 }
                 // every held searcher still answers exactly as when it was taken
                 for (s, first) in &held {
@@ -151,6 +152,7 @@ fn main() {
         out.count("trace_events", trace.len() as u64);
     }
     shared_reader_schedules(&mut rng, &mut out, if thorough { 200 } else { 40 });
+    mmap_lock_schedules(&mut rng, &mut out, if thorough { 60 } else { 12 });
     out.finish(json!({"tier": args.tier, "seed": args.seed}));
 }
 
@@ -271,5 +273,59 @@ fn shared_reader_schedules(rng: &mut Rng, out: &mut CaseOut, n: usize) {
                      json!({"what": "shared-reader reload schedule: model (ReloadStore.v, serialization as pinned from the source) vs IndexReader", "case": desc}), nontrivial);
         out.count("shared_reader_schedules", 1);
         if !blocked.is_empty() { out.count("schedules_with_blocked_reload", 1); }
+    }
+}
+
+
+/// META_LOCK on a real MmapDirectory (flock): a holder, a waiter that is already blocked when the holder releases, and
+/// newcomers that try the lock without blocking.  Events and theorem: coq/Storage/Flock.v.
+fn mmap_lock_schedules(rng: &mut Rng, out: &mut CaseOut, n: usize) {
+    use tantivy::directory::{Directory, Lock, MmapDirectory, META_LOCK};
+    for _ in 0..n {
+        let tmp = tempfile::tempdir().unwrap();
+        let dir = MmapDirectory::open(tmp.path()).unwrap();
+        let try_lock = Lock { filepath: META_LOCK.filepath.clone(), is_blocking: false };
+        let mut evs: Vec<String> = vec![];
+        let mut max_holders = 0usize;
+        // A takes the lock
+        let a = dir.acquire_lock(&META_LOCK).unwrap();
+        evs.push("FOpen 1".into()); evs.push("FLock 1".into());
+        // B blocks on it (a reload waiting for a collection to finish)
+        let (tx, rx) = std::sync::mpsc::channel();
+        let (rel_tx, rel_rx) = std::sync::mpsc::channel::<()>();
+        let d2 = dir.clone();
+        let b = std::thread::spawn(move || { let g = d2.acquire_lock(&META_LOCK); let _ = tx.send(g.is_ok()); let _ = rel_rx.recv(); drop(g); });
+        std::thread::sleep(Duration::from_millis(30 + rng.below(40)));
+        evs.push("FOpen 2".into()); evs.push("FLock 2".into());
+        // a newcomer cannot get it while A holds it
+        let c0 = dir.acquire_lock(&try_lock);
+        evs.push("FOpen 3".into()); evs.push("FLock 3".into());
+        let mut holders = 1 + c0.is_ok() as usize;
+        max_holders = max_holders.max(holders);
+        drop(c0); evs.push("FClose 3".into());
+        // A releases; B (already waiting) gets it
+        drop(a); evs.push("FClose 1".into());
+        let b_got = rx.recv_timeout(Duration::from_secs(10)).unwrap_or(false);
+        evs.push("FLock 2".into());
+        holders = b_got as usize;
+        // newcomers while B holds it
+        let mut newcomers = vec![];
+        for t in 4..(5 + rng.below(3)) {
+            let g = dir.acquire_lock(&try_lock);
+            evs.push(format!("FOpen {t}")); evs.push(format!("FLock {t}"));
+            if g.is_ok() { holders += 1; }
+            max_holders = max_holders.max(holders);
+            newcomers.push(g);
+        }
+        let granted: Vec<u64> = newcomers.iter().enumerate().filter(|(_, g)| g.is_ok()).map(|(i, _)| 4 + i as u64).collect();
+        let desc = json!({"events": evs, "waiter_got_the_lock_after_release": b_got, "newcomers_granted_while_the_waiter_holds_it": granted, "max_simultaneous_holders": max_holders});
+        out.spec_checked(b_got && max_holders <= 1, json!({"what": "META_LOCK on MmapDirectory does not exclude: two parties hold it at the same time (or the waiter never got it)", "case": desc}));
+        // tie: the model's holders at the end = B plus whoever was granted
+        let mut want: Vec<u64> = granted.clone(); want.reverse(); if b_got { want.push(2); }
+        out.coq_case("tie", format!("list_eqb N.eqb (holders (flrun [{}])) {}", evs.join("; "), tvh::coqfmt::ns(&want)), json!({"what": "flock schedule: model (Flock.v) vs MmapDirectory::acquire_lock", "case": desc}), true);
+        drop(newcomers);
+        let _ = rel_tx.send(());
+        let _ = b.join();
+        out.count("mmap_lock_schedules", 1);
     }
 }
